@@ -215,7 +215,7 @@ theorem ridder_evals_in_bracket (f : Rat → Option Rat) (sq rnd : Rat → Rat) 
           ⟨le_refl _, min_le_max, min_le_max, le_refl _⟩ (fun h0 => absurd h0 (by omega)) x h
   · simp only [List.mem_cons, List.not_mem_nil, or_false] at hx; exact ends x hx
 
-/-- the instance the other theorems are about: exact arithmetic, 50 iterations -/
+/-- the instance the other theorems are about: exact arithmetic, 200 iterations -/
 theorem findRoot_evals_in_bracket (f : Rat → Option Rat) (sq : Rat → Rat) (xl xr acc : Rat) :
     ∀ x ∈ (findRoot f sq xl xr acc).evals, min xl xr ≤ x ∧ x ≤ max xl xr :=
   ridder_evals_in_bracket f sq id xl xr acc maxIterations (by decide)
@@ -261,11 +261,11 @@ theorem findRoot_accuracy (f : Rat → Option Rat) (sq : Rat → Rat) (hsq : SqO
     · rw [h] at hret; cases hret; exact ⟨h1, h2, h3⟩
     · rw [h] at hret; cases hret
 
-/-- **findRoot_maxiter_bound**: if the 50 iterations are used up, the returned iterate is an end of
-    an interval with a sign change not wider than `|xr − xl| / 2^50`. -/
+/-- **findRoot_maxiter_bound**: if the 200 iterations are used up, the returned iterate is an end of
+    an interval with a sign change not wider than `|xr − xl| / 2^200`. -/
 theorem findRoot_maxiter_bound (f : Rat → Option Rat) (sq : Rat → Rat) (hsq : SqOK sq) (xl xr acc r : Rat)
     (hret : (findRoot f sq xl xr acc).out = .maxIter r) :
-    Witness f (min xl xr) (max xl xr) (|xr - xl| / 2 ^ 50) false r := by
+    Witness f (min xl xr) (max xl xr) (|xr - xl| / 2 ^ 200) false r := by
   rcases findRoot_cases f sq hsq xl xr acc with ⟨_, _, ho⟩ | ⟨R, hp, he⟩
   · rcases ho with h | h | ⟨h, _⟩ | ⟨h, _⟩ <;> rw [h] at hret <;> cases hret
   · rw [he] at hret
@@ -352,7 +352,7 @@ theorem findRoot_linear_exact (sq : Rat → Rat) (hsq : ∀ t : Rat, sq (t * t) 
       field_simp
       push_cast
       ring
-  have h50 : maxIterations = 49 + 1 := rfl
+  have h50 : maxIterations = 199 + 1 := rfl
   rw [h50, loop]
   unfold step
   simp only []
@@ -401,7 +401,7 @@ theorem findRoot_accuracy_driver (f : Rat → Option Rat) (xl xr acc r : Rat)
 
 theorem findRoot_maxiter_bound_driver (f : Rat → Option Rat) (xl xr acc r : Rat)
     (hret : (findRoot f sqrtRat xl xr acc).out = .maxIter r) :
-    Witness f (min xl xr) (max xl xr) (|xr - xl| / 2 ^ 50) false r :=
+    Witness f (min xl xr) (max xl xr) (|xr - xl| / 2 ^ 200) false r :=
   findRoot_maxiter_bound f sqrtRat sqrtRat_SqOK xl xr acc r hret
 
 theorem findRoot_sign_change_returns_driver (f : Rat → Option Rat) (xl xr acc fl fr : Rat)
